@@ -11,7 +11,7 @@ from mc.core import Acc, Hang, fp_hash, horizon, labella_globals, purge_labella
 ID = "C06"
 RULE = ("E-HIST: every history up to depth 5 (thorough 8) of nodes(S_i) for 4 label sets / re-presenting the same node objects "
         "reversed or rotated / compute() / set_options(cfg_j) for 4 option dicts / creating and running ANOTHER engine with "
-        "different options (3 variants, one with the lineSpacing option) / letting another engine lay out the SAME node objects / running a stand-alone Distributor over them / appending a label to the caller's list on one real Force engine, replayed on fresh "
+        "different options (3 variants, one with the lineSpacing option) / letting another engine lay out the SAME node objects / running a stand-alone Distributor over them / letting another engine lay out clones of them (which must leave the first engine's layout and layering untouched) / continuing with clones / appending a label to the caller's list on one real Force engine, replayed on fresh "
         "objects, states deduplicated by a fingerprint of the engine + node graph (stubs, aliasing); at every compute() the "
         "label -> (layer, position) map must equal that of a fresh engine with the accumulated options and fresh sorted nodes, "
         "and the engine's node list must still be exactly the caller's labels. E-INPUT: every permutation (n<=3; n=4: 6 of 24 "
@@ -23,11 +23,12 @@ ASSUMPTIONS = ["labels are compared as multisets of (ideal position, width) -> (
 REQUIRED_COUNTERS = ("computes_checked", "recomputes_on_stale_state", "perm_cases", "perm_nontrivial")
 
 SETS = [[(0, 4), (10, 4)], [(1, 4), (1.5, 4), (2, 1)], [(0, 4), (1, 4), (1, 4), (2.5, 1), (6, 4)], [(3, 4), (3, 4), (3, 4), (3.5, 1)]]
-CFG = [{"maxPos": 10}, {"maxPos": None}, {"algorithm": "simple", "maxPos": 9}, {"nodeSpacing": 1.5, "stubWidth": 2}]
+CFG = [{"maxPos": 10}, {"maxPos": None}, {"algorithm": "simple", "maxPos": 9}, {"nodeSpacing": 1.5, "stubWidth": 2},
+       {"algorithm": "none", "minPos": 0, "maxPos": 40}]
 OTHER = [{"maxPos": 7, "density": 0.4, "nodeSpacing": 0, "stubWidth": 0, "algorithm": "simple"}, {"algorithm": "none", "maxPos": 50},
          {"lineSpacing": 9, "maxPos": 10}]
 OPS = ([("N", i) for i in range(len(SETS))] + [("P", "rev"), ("P", "rot"), ("C", None)] + [("O", j) for j in range(len(CFG))]
-       + [("E", j) for j in range(len(OTHER))] + [("X", 0), ("X", 2), ("A", None), ("S", None)])
+       + [("E", j) for j in range(len(OTHER))] + [("X", 0), ("X", 2), ("A", None), ("S", None), ("K", None), ("Y", 1), ("Y", 0)])
 
 
 def bounds(tier, seed):
@@ -60,10 +61,22 @@ def build(hist, sets):
                 g.compute()
                 others.append(g)
             continue
+        if op == "Y":  # another engine lays out CLONES of the labels: the engine that owns the originals is not concerned
+            if nodes:
+                g = Force(dict(OTHER[a]))
+                g.nodes([n.clone() for n in nodes])
+                g.compute()
+                others.append(g)
+            continue
         if op == "S":  # the caller runs a stand-alone Distributor over the same node objects (stubs, no layerIndex)
             if nodes:
                 from labella.distributor import Distributor
                 Distributor({"layerWidth": 8, "density": 0.5, "stubWidth": 2}).distribute(list(nodes))
+            continue
+        if op == "K":  # the caller continues with clones of the (possibly laid-out) labels
+            if nodes:
+                nodes = [n.clone() for n in nodes]
+                f.nodes(nodes)
             continue
         if op == "A":  # the caller appends a label to the list it handed to nodes()
             if nodes and not any(n.idealPos == 7.5 for n in nodes):
@@ -86,6 +99,20 @@ def build(hist, sets):
 
 def result(nodes):
     return sorted((n.idealPos, n.width, n.layerIndex, n.currentPos) for n in nodes)
+
+
+def engine_view(f, nodes):
+    """What the owner of engine f can observe: its labels' layout, its layering, and whether that layering is well formed."""
+    from mc.props import c04
+    try:
+        layers = [list(l) for l in f.getLayers()]
+    except Exception as e:
+        return (result(nodes), "getLayers raised " + type(e).__name__)
+    while layers and not layers[-1]:
+        layers.pop()
+    shape = [[(x.idealPos, x.width, x.isStub(), x.currentPos) for x in l] for l in layers]
+    bad = c04.check_structure(layers, nodes, f.distributor.options["stubWidth"]) if layers else None
+    return (result(nodes), shape, bad[0] if bad else None)
 
 
 def reference(labels, acc):
@@ -145,6 +172,16 @@ def check_history(hist, sets, counters=None):
                 held = f.nodes()
                 if sorted(map(id, held)) != sorted(map(id, nodes)) or any(n.isStub() for n in held):
                     return ("C06:node-list-changed", "after %s the engine's node list is no longer the caller's labels" % fmt(hist)), None
+            if hist and hist[-1][0] in ("Y", "E") and nodes:
+                # work done by another engine on its own labels (or on clones) leaves this engine's state as it was
+                after = engine_view(f, nodes)
+                f0, nodes0, _, _ = build(hist[:-1], sets)
+                before = engine_view(f0, nodes0)
+                if counters is not None:
+                    counters.counters["other_engine_ops_checked"] += 1
+                if before != after:
+                    return ("C06:other-engine-interferes", "after %s the first engine's layout/layering is %r; before the last "
+                            "operation it was %r" % (fmt(hist), after, before)), None
     except Hang:
         return ("HANG", "history %s did not return" % fmt(hist)), None
     except Exception as e:
@@ -165,7 +202,7 @@ def hist_expand(ctx, h, acc):
     h = [tuple(o) for o in h]
     succ = []
     for oi, op in enumerate(OPS):
-        if op[0] in ("P", "X", "A", "S") and not any(o[0] == "N" for o in h):
+        if op[0] in ("P", "X", "A", "S", "K", "Y") and not any(o[0] == "N" for o in h):
             continue
         nh = h + [op]
         bad, st = check_history(nh, ctx["sets"], acc)
@@ -211,12 +248,35 @@ NONDYADIC = [
 ]
 
 
+ULP_SETS = [
+    [(5, 47.3), (20.5, 52.1), (33, 38.7), (51.25, 61.9), (64, 44.6), (80, 50.2)],
+    [(1, 87.0), (2.5, 20.4), (7, 74.9), (11, 77.4), (12, 82.0), (40, 71.8)],
+    [(3, 0.1), (4, 0.7), (9, 0.3), (10, 1.9), (17, 2.3), (30, 0.6)],
+]
+
+
+def ulp_window_configs(labels, spacing=3):
+    """Budgets that fall inside the float-rounding window of the required width: the width is a float sum, its value
+    depends on the order of the terms; every distinct value of that sum (over all input orders) is used as the budget
+    (density 1, layer width = that value).  The layout must not depend on the input order for any of them."""
+    totals = set()
+    for perm in itertools.permutations(range(len(labels))):
+        t = 0
+        for i in perm:
+            t += labels[i][1] + spacing
+        totals.add(t - spacing)
+    return [{"minPos": 0, "maxPos": t, "density": 1.0, "nodeSpacing": spacing} for t in sorted(totals)]
+
+
 def plan(tier, seed):
     n = 48 if tier == "quick" else 128
     shards = [{"kind": "perm", "tier": tier, "mod": n, "rem": r} for r in range(n)]
     for k in range(len(NONDYADIC)):
         for part in range(6):
             shards.append({"kind": "nondyadic", "set": k, "first": part})
+    for k in range(len(ULP_SETS)):
+        for part in range(6):
+            shards.append({"kind": "ulpwindow", "set": k, "first": part})
     return shards
 
 
@@ -225,6 +285,24 @@ PERM4_QUICK = [(0, 1, 2, 3), (3, 2, 1, 0), (1, 2, 3, 0), (1, 0, 2, 3), (2, 3, 0,
 
 def run_shard(shard):
     acc = Acc()
+    if shard["kind"] == "ulpwindow":
+        labels = ULP_SETS[shard["set"]]
+        for ci, opts in enumerate(ulp_window_configs(labels)):
+            base = layout_map(labels, opts, None)
+            acc.states += 1
+            for perm in itertools.permutations(range(len(labels))):
+                if perm[0] != shard["first"]:
+                    continue
+                got = layout_map(labels, opts, perm)
+                acc.evals += 1
+                acc.trans += 1
+                acc.counters["perm_cases"] += 1
+                acc.counters["ulp_window_perms"] += 1
+                if got != base:
+                    acc.violation({"labels": labels, "opts": opts, "perm": list(perm)}, "C06:order-dependent",
+                                  "input order %r gives %r, sorted order gives %r" % (list(perm), got, base), order=(201, shard["set"], ci))
+        acc.sample({"labels": labels, "opts": opts, "perm": list(perm)})
+        return acc
     if shard["kind"] == "nondyadic":
         labels, opts = NONDYADIC[shard["set"]]
         base = layout_map(labels, opts, None)
